@@ -47,6 +47,10 @@ class HTAIL(Harness):
         fsite = FaultSite(p.get("fault_kind"))
         opts = cached_options(D, {})
         opts["noise_final_samples"] = nfs
+        if p.get("budget_hit"):
+            # a budget-terminated run: func_count (40 at entry) has reached options['max_fun_evals'], which for noisy
+            # targets is the budget already reduced by the reserved final samples
+            opts["max_fun_evals"] = 40
         opts["specify_target_noise"] = level == 2
         rb = Rebinder(eng.concrete, stubs=stubs())
         tail = self.unit(rb)
